@@ -292,13 +292,11 @@ def rule_L6(ctx: Ctx) -> None:
     om = X.assignments_to(f.node, "output_maze")
     ok = bool(om) and X.same_expr(om[0], "cls.from_adj_list(adj_list)")
     tl = [c for c in X.calls(f.node) if X.U(c.func) == "TargetedLatticeMaze.from_lattice_maze"]
-    ok = ok and len(tl) == 1 and X.U(N.kwarg(tl[0], "start_pos")) == "start_pos" and X.U(N.kwarg(tl[0], "end_pos")) == "end_pos"
+    ok = ok and len(tl) == 1 and X.same_expr_x(N.kwarg(tl[0], "start_pos"), f.node, "start_pos_list[0]", keep=("start_pos_list",)) \
+        and X.same_expr_x(N.kwarg(tl[0], "end_pos"), f.node, "end_pos_list[0]", keep=("end_pos_list",))
     sp = X.assignments_to(f.node, "start_pos_list")
     ep = X.assignments_to(f.node, "end_pos_list")
     ok = ok and len(sp) == 1 and "get_origin_tokens(tokens)" in X.U(sp[0]) and len(ep) == 1 and "get_target_tokens(tokens)" in X.U(ep[0])
-    s0 = X.assignments_to(f.node, "start_pos")
-    e0 = X.assignments_to(f.node, "end_pos")
-    ok = ok and len(s0) == 1 and X.U(s0[0]) == "start_pos_list[0]" and len(e0) == 1 and X.U(e0[0]) == "end_pos_list[0]"
     ctx.judge(f, ok, {"start_from": X.U(sp[0])[:80] if sp else None, "end_from": X.U(ep[0])[:80] if ep else None},
               "start comes from the ORIGIN region and end from the TARGET region", "a parsed maze has start and end exchanged")
     sol = X.assignments_to(f.node, "solution")
@@ -306,10 +304,14 @@ def rule_L6(ctx: Ctx) -> None:
     sm = [c for c in X.calls(f.node) if X.U(c.func) == "SolvedMaze.from_targeted_lattice_maze"]
     ok = ok and len(sm) == 1 and X.U(N.kwarg(sm[0], "solution")) == "solution" and X.U(N.kwarg(sm[0], "targeted_lattice_maze")) == "output_maze"
     ctx.judge(f, ok, {"solution_from": X.U(sol[0])[:90] if sol else None}, "the solution is the PATH region's coordinates in order, attached to the parsed targeted maze")
-    kinds = [n for n in f.node.body if isinstance(n, ast.If) and "all(" in X.U(n.test)]
+    kinds = [(n, X.expand_locals(n.test, f.node)) for n in f.node.body if isinstance(n, ast.If)]
+    kinds = [(n, t_) for n, t_ in kinds if isinstance(t_, ast.Call) and dotted_of(t_.func) == "all"]
     got = []
-    for n in kinds:
-        got.append(sorted(a.attr for a in ast.walk(n.test) if isinstance(a, ast.Attribute) and dotted_of(a.value) == "SPECIAL_TOKENS"))
+    for n, t_ in kinds:
+        got.append(sorted(a.attr for a in ast.walk(t_) if isinstance(a, ast.Attribute) and dotted_of(a.value) == "SPECIAL_TOKENS"))
+        ew = X.elementwise(t_.args[0]) if t_.args else None
+        if ew is None or not X.same_expr(ew[0], "_x in tokens"):
+            got[-1] = ["<not a membership test of every delimiter in tokens>"]
     ok = got == [["ORIGIN_END", "ORIGIN_START", "TARGET_END", "TARGET_START"], ["PATH_END", "PATH_START"]]
     ctx.judge(f, ok, {"kind_tests": got}, "kind of the parsed maze: targeted iff all four origin/target delimiters are present; solved iff additionally both path delimiters are")
     ft = ctx.index.func(f"{LM}.LatticeMaze.from_tokens")
